@@ -173,6 +173,7 @@ CHECKS = {
             dict(name="modify", test="TestC03Modify", checks=(20000, 1500000), shards=(4, 14), timeout=(240, 3000)),
             dict(name="boundaries", test="TestC03Boundaries", kind="enum", shards=(4, 14), timeout=(240, 1200)),
             dict(name="counter", test="TestC03Counter", kind="enum", shards=(2, 14)),
+            dict(name="native-fuzz", test="FuzzRoundTrip", kind="fuzz", fuzztime=(10, 120), shards=(1, 1), tiers=["thorough"], timeout=(120, 600), workers=14),
         ]),
     "C04": dict(
         pkg="p_codec", level="exploration",
@@ -188,6 +189,7 @@ CHECKS = {
         units=[
             dict(name="mutants", test="TestC04Mutants", kind="enum", shards=(4, 14)),
             dict(name="random", test="TestC04Random", checks=(40000, 5000000), shards=(4, 14), timeout=(240, 3000)),
+            dict(name="native-fuzz", test="FuzzDecode", kind="fuzz", fuzztime=(10, 180), shards=(1, 1), tiers=["thorough"], timeout=(120, 600), workers=14),
         ]),
 
     "C16": dict(
